@@ -26,7 +26,7 @@ ALL_CFG = dict(Modes=("WebRtc", "Srtp", "Rtp"), Compats=("Standard", "LegacySip"
 def scen(label, maxsec, menus, sim=None, depth=None, **kw):
     d = dict(label=label, MinSec=1, MaxSec=maxsec, Sims=(False,), Port0s=(False,), Extras=("none",), Kinds=ALL_KINDS,
              SNames=("dash",), OUsers=("dash",), SessOpts=("none",), FlagAttrs=(False,), Trickies=(False,), Blanks=(False,),
-             Eols=("crlf",), MidSchemes=("numeric", "named", "absent"),
+             Eols=("crlf",), SetupLevels=("media",), MidSchemes=("numeric", "named", "absent"),
              BundleModes=("none", "all"), Setups=("actpass", "none"), Dirs=("sendrecv", "sendonly"),
              Muxes=(True, False), menus=menus, sim=sim, **ALL_CFG)
     d.update(kw)
@@ -41,7 +41,8 @@ ALL_SETUPS = ("actpass", "active", "passive", "none")
 # the "line form" of the peer's text (what the parser sees for the same abstract description)
 FORMS = dict(SNames=("dash", "space", "empty", "words"), OUsers=("dash", "name"), SessOpts=("none", "c", "bi", "all"),
              FlagAttrs=(True, False), Trickies=(True, False), Blanks=(True, False), Eols=("crlf", "lf"))
-NEW_DIMS = dict(Sims=(True, False), Port0s=(True, False), Extras=("none", "sip", "browser"), **FORMS)
+NEW_DIMS = dict(Sims=(True, False), Port0s=(True, False), Extras=("none", "sip", "browser"),
+                SetupLevels=("media", "session"), **FORMS)
 TIERS = {
     "quick": [
         # exhaustive: every single-section offer of the small menus x mid scheme x bundle, for every mode,
@@ -54,6 +55,11 @@ TIERS = {
         scen("exhaustive/line-forms", 1, ("AudioPtsOne", "VideoPtsOne", "ExtNone"), Compats=("Standard",), Pres=("none",),
              Caps=("default",), Negs=("first",), MidSchemes=("numeric",), BundleModes=("none",), Dirs=("sendrecv",),
              Muxes=(True,), **FORMS),
+        # exhaustive over extension-id forms (two-byte ids, local default id taken by another URI) x setup value x
+        # setup at media/session level x first / same-ids re-offer / re-offer that moves the URIs to other ids
+        scen("exhaustive/ext-ids+setup", 1, ("AudioPtsOne", "VideoPtsOne", "ExtIdForms"), Kinds=("audio", "video"),
+             Pres=("none",), Caps=("default",), Negs=("first", "subsequent", "moved"), MidSchemes=("numeric",),
+             BundleModes=("none",), Dirs=("sendrecv",), Muxes=(True,), Setups=ALL_SETUPS, SetupLevels=("media", "session")),
         scen("random/1-3-sections", 3, FULL, sim=5000, Dirs=ALL_DIRS, Setups=ALL_SETUPS,
              BundleModes=("none", "all", "first2"), **NEW_DIMS),
         scen("random/4-6-sections", 6, FULL, sim=1500, MinSec=4, Dirs=ALL_DIRS, Setups=ALL_SETUPS,
@@ -100,6 +106,7 @@ CONSTANTS
   Trickies = {S(sc['Trickies'])}
   Blanks = {S(sc['Blanks'])}
   Eols = {S(sc['Eols'])}
+  SetupLevels = {S(sc['SetupLevels'])}
   Kinds = {S(sc['Kinds'])}
   MidSchemes = {S(sc['MidSchemes'])}
   BundleModes = {S(sc['BundleModes'])}
